@@ -403,8 +403,9 @@ def compare_pipeline(M, c, x, stats, worst, notes):
             key = fam + ":" + f
             worst[key] = max(worst.get(key, 0.0), d)
             stats["field_comparisons"] = stats.get("field_comparisons", 0) + 1
-            if not d <= tol:
-                fails.append((f, d, tol, si))
+            ftol = 1e-5 if (fam == "welded" and f in DYN_FIELDS) else tol      # deep overlaps: solver convergence, not kinematics
+            if not d <= ftol:
+                fails.append((f, d, ftol, si))
         # equality / friction-loss / limit rows: MJX keeps a static row per candidate (zero Jacobian when inactive); every C row is matched
         # with the MJX row of the same class whose Jacobian is nearest, then J, aref, D and pos are compared
         cls_c = [(0, sc["ne"]), (sc["ne"], sc["ne"] + sc["nf"]), (sc["ne"] + sc["nf"], sc["ne"] + sc["nf"] + sc["nl"])]
@@ -530,8 +531,8 @@ def run(ctx):
         return
 
     # ------------------------------------------------------------------ whole-pipeline job first (longest MJX run)
-    fams = ["connect_moving", "tendons", "solparams", rng.choice(["smooth", "contact1", "contact3", "spheres"])] if quick else \
-           (["connect_moving"] + ["tendons"] * 4 + ["solparams"] * 8 + ["smooth"] * 6 + ["contact1"] * 4 + ["contact3"] * 5 + ["spheres"] * 4 + ["capsules"] * 3)
+    fams = ["connect_moving", "tendons", "solparams", "welded", rng.choice(["smooth", "contact1", "contact3", "spheres"])] if quick else \
+           (["connect_moving"] + ["tendons"] * 4 + ["solparams"] * 8 + ["welded"] * 6 + ["smooth"] * 6 + ["contact1"] * 4 + ["contact3"] * 5 + ["spheres"] * 4 + ["capsules"] * 3)
     pmodels, pinp, pjobs = [], "", []
     for fam in fams:
         M = MM.reorder_depth_first(MM.make_model(rng, fam))
@@ -892,7 +893,9 @@ def run(ctx):
             if M.get("known") == "jdotv":
                 jdotv_replay(ctx, M, states, c, x, sup)
                 continue
-            for what, d, tol, si in compare_pipeline(M, c, x, stats, worst, notes)[:3]:
+            found = compare_pipeline(M, c, x, stats, worst, notes)
+            found.sort(key=lambda t: not (t[0].startswith("number of active contacts") or "missing in MJX" in t[0]))      # structural differences first
+            for what, d, tol, si in found[:3]:
                 ctx.violation("impl_violation", {"family": M["family"], "mjcf": MM.to_xml(M), "state": states[si] if si >= 0 else None, "quantity": what},
                               expected="MJX (working tree, float64) equals the C engine of the working tree within %g relative" % tol,
                               observed="relative difference %s" % d, theorem=None, signature={"site": "mjx pipeline", "quantity": what.split(" ")[0]},
